@@ -105,6 +105,17 @@ claim("C14",
       "the legacy sqlparse analyzer is not covered by this check",
       "DESIGN.md section 4 (C14)")
 
+claim("C13",
+      "The real LineageRunner with and without the dict-backed provider whose column lists are SYMBOLIC and whose knowledge of each table "
+      "is a free bit: 13 templates (SELECT * single/join/qualified/derived/CTE, unqualified column over joins incl. free schema+table names, "
+      "INSERT positions from target metadata, explicit list, union, CTAS, unknown tables) + a seeded share of the corpus under an unrelated "
+      "provider; z3 decides over all column namings (overlap patterns are its case split) that table lineage is unchanged and the pairs equal "
+      "the refinement contract. Witnesses replayed on the unmodified library with the concrete metadata dict.",
+      TRUST + "; parser boundary stubbed; SQLAlchemy provider only through the shared base-class path; four open findings reported as "
+      "KNOWN-FINDING (explicit list overridden, star over join with overlapping column, star over join with partial knowledge, star "
+      "through CTE)",
+      "DESIGN.md section 4 (C13)")
+
 ALL = ["C%02d" % i for i in range(1, 19)]
 
 
